@@ -8,8 +8,11 @@ use super::*;
 
 pub struct Pipeline {
   pub init: InitResult,
-  /// `registry().with(DispatchLayer)`, not installed anywhere
-  pub dispatch: tracing::Dispatch,
+  /// `registry().with(DispatchLayer)`, not installed anywhere and not wrapped in a
+  /// `tracing::Dispatch` either: creating a `Dispatch` registers it in tracing's process-wide
+  /// dispatcher list, through which another thread's `Dispatch::new` can end up running this
+  /// subscriber's destructor - fatal when several simulated worlds share one process.
+  pub subscriber: Arc<dyn tracing::Subscriber + Send + Sync>,
   /// the `log` bridge, not installed anywhere
   pub log: Box<dyn log::Log>,
   pub max_level: LevelFilter,
@@ -97,7 +100,7 @@ pub fn build(
   let max_level = processor.max_level();
   let dispatch_layer = DispatchLayer::new(Arc::clone(&processor));
   let subscriber = tracing_subscriber::registry().with(dispatch_layer);
-  let dispatch = tracing::Dispatch::new(subscriber);
+  let subscriber: Arc<dyn tracing::Subscriber + Send + Sync> = Arc::new(subscriber);
   let log_handler = LogHandler::new(Arc::clone(&processor));
 
   Ok(Pipeline {
@@ -109,7 +112,7 @@ pub fn build(
       internal_error_rx: error_rx_channel,
       custom_streams,
     },
-    dispatch,
+    subscriber,
     log: Box::new(log_handler),
     max_level,
   })
